@@ -29,8 +29,8 @@ MAX_KEYS = 6
 RULE = ("queue differential: all op lists up to length 2 (thorough 3) over 6 positions x impliedSemi for 7 queue shapes + random queues (0-6 groups, "
         "0-3 comments each, four comment styles, sorted and unsorted offsets, empty groups, positions incl. infinity, print/sizeBefore/before ops); "
         "search: every parsing file of the tree (.xgo .gox .go .spx .gmx .gsh ...), every raw-string test program embedded in *_test.go, generated XGo programs; "
-        "as is + all-boundaries block-comment variant + single insertions (quick: sampled; thorough: every boundary x 10 styles for sources <= 6000 bytes, "
-        "sampled beyond); a case counts as non-trivial if the formatted source contains >= 1 comment / the queue has >= 1 comment and >= 1 op")
+        "as is + all-boundaries block-comment variant + single insertions (quick: sampled; thorough: every boundary x 10 styles, sources <= 1200 bytes first and completely, "
+        "the rest in random order until the 11 min budget ends); a case counts as non-trivial if the formatted source contains >= 1 comment / the queue has >= 1 comment and >= 1 op")
 
 
 def _search(ctx, outdir, dis):
